@@ -4,19 +4,282 @@ import (
 	"bytes"
 	"fmt"
 	"math/rand"
+	"strings"
 
+	"github.com/yaricom/goNEAT/v4/neat"
 	"github.com/yaricom/goNEAT/v4/neat/genetics"
+	"github.com/yaricom/goNEAT/v4/neat/network"
 )
 
-// c03ReadPopulation: a population that was evolved, written, read back with ReadPopulation and evolved
-// further must keep issuing innovation numbers and node ids larger than any it holds (C03: the counters
-// are initialised past the genomes read), with one link per number over the whole continued history.
+// ---------- ReadPopulation and the two counters (coq/proofs/ReadPopRegistry.v, props/C03.v) ----------
+
+// c03rLinkReg is a registry innovation number -> link, node id -> role, accumulated over organisms
+type c03rLinkReg struct {
+	links map[int64]string
+	roles map[int]network.NodeNeuronType
+}
+
+func c03rNewReg() *c03rLinkReg {
+	return &c03rLinkReg{links: map[int64]string{}, roles: map[int]network.NodeNeuronType{}}
+}
+
+func c03rLinkKey(x *genetics.Gene) string {
+	return fmt.Sprint(x.Link.InNode.Id, ">", x.Link.OutNode.Id, " ", x.Link.IsRecurrent)
+}
+
+func (g *c03rLinkReg) add(p *genetics.Population) {
+	for _, o := range p.Organisms {
+		for _, x := range o.Genotype.Genes {
+			g.links[x.InnovationNum] = c03rLinkKey(x)
+		}
+		for _, n := range o.Genotype.Nodes {
+			g.roles[n.Id] = n.NeuronType
+		}
+	}
+}
+
+// c03rSorted: genes ascending by innovation number and nodes ascending by id (what C01 demands of a genome)
+func c03rSorted(g *genetics.Genome) bool {
+	for i := 1; i < len(g.Genes); i++ {
+		if g.Genes[i-1].InnovationNum >= g.Genes[i].InnovationNum {
+			return false
+		}
+	}
+	for i := 1; i < len(g.Nodes); i++ {
+		if g.Nodes[i-1].Id >= g.Nodes[i].Id {
+			return false
+		}
+	}
+	return true
+}
+
+// c03rCounters evaluates C03_read_counters_dominate on a population ReadPopulation returned:
+//   - exactly: nextInnovNum = max(0, max over genomes (number of the last gene + 1)); nextNodeId is the fold of
+//     "if counter < id of the last node then id + 1", hence between the maximum of the last ids and one more;
+//   - the counters dominate every number / id of every genome whose genes and nodes are in ascending order.
+// Returns (some genome out of order, a counter below something held).
+func c03rCounters(pop *genetics.Population, bad func(key, what string)) (unsorted, short bool) {
+	_, ni, nn32 := genetics.VPopulationCounters(pop)
+	nn := int(nn32)
+	wantI, foldN, maxLastN := int64(0), 0, 0
+	maxI, maxN := int64(0), 0
+	allSorted := true
+	for _, o := range pop.Organisms {
+		g := o.Genotype
+		if len(g.Genes) == 0 || len(g.Nodes) == 0 {
+			bad("read-genome-without-gene-or-node", "ReadPopulation returned a genome without genes or nodes")
+			return
+		}
+		lastI := g.Genes[len(g.Genes)-1].InnovationNum
+		lastN := g.Nodes[len(g.Nodes)-1].Id
+		if lastI+1 > wantI {
+			wantI = lastI + 1
+		}
+		if foldN < lastN {
+			foldN = lastN + 1
+		}
+		if lastN > maxLastN {
+			maxLastN = lastN
+		}
+		for _, x := range g.Genes {
+			if x.InnovationNum > maxI {
+				maxI = x.InnovationNum
+			}
+		}
+		for _, n := range g.Nodes {
+			if n.Id > maxN {
+				maxN = n.Id
+			}
+		}
+		if !c03rSorted(g) {
+			allSorted = false
+		}
+	}
+	if ni != wantI {
+		bad("read-counters-innov-not-the-maximum", fmt.Sprintf("nextInnovNum after ReadPopulation is %d, the largest last-gene number plus one is %d", ni, wantI))
+	}
+	if nn != foldN || nn < maxLastN || nn > maxLastN+1 {
+		bad("read-counters-node-not-the-fold", fmt.Sprintf("nextNodeId after ReadPopulation is %d, expected %d (largest last node id %d)", nn, foldN, maxLastN))
+	}
+	short = ni <= maxI || nn < maxN
+	if allSorted && short {
+		bad("read-counters-below-held", fmt.Sprintf("after ReadPopulation nextInnovNum=%d nextNodeId=%d but the genomes read hold innovation number %d and node id %d", ni, nn, maxI, maxN))
+	}
+	return !allSorted, short
+}
+
+// c03rEvolve runs epochs on a population that was read and checks every generation against the registry of
+// what lived before the read: pre (organisms that were written; unconditional) and preAll (every organism of
+// every generation before the write; only for numbers / ids not above the counters the reader derived).
+// Returns whether a number above the counter, held only by organisms extinct at the write, was issued again.
+func c03rEvolve(pop2 *genetics.Population, opts *neat.Options, epochs, gen0 int, pre, preAll *c03rLinkReg, po *popOracle, bad func(key, what string)) (reissued bool, err error) {
+	_, ni, nn := genetics.VPopulationCounters(pop2)
+	check := func() {
+		for _, o := range pop2.Organisms {
+			for _, x := range o.Genotype.Genes {
+				k := c03rLinkKey(x)
+				if pre != nil {
+					if old, ok := pre.links[x.InnovationNum]; ok && old != k {
+						bad("innovation-number-reused-across-read", fmt.Sprintf("innovation %d denoted %s in the population written and denotes %s after ReadPopulation", x.InnovationNum, old, k))
+					}
+				}
+				if preAll != nil {
+					if old, ok := preAll.links[x.InnovationNum]; ok && old != k {
+						if x.InnovationNum <= ni {
+							bad("innovation-number-reused-across-read-history", fmt.Sprintf("innovation %d (not above the counter %d read) denoted %s before the write and denotes %s after ReadPopulation", x.InnovationNum, ni, old, k))
+						} else {
+							reissued = true
+						}
+					}
+				}
+			}
+			for _, n := range o.Genotype.Nodes {
+				if pre != nil {
+					if old, ok := pre.roles[n.Id]; ok && old != n.NeuronType {
+						bad("node-id-role-changed-across-read", fmt.Sprintf("node id %d changed its role across ReadPopulation", n.Id))
+					}
+				}
+				if preAll != nil {
+					if old, ok := preAll.roles[n.Id]; ok && old != n.NeuronType && n.Id <= int(nn) {
+						bad("node-id-role-changed-across-read-history", fmt.Sprintf("node id %d (not above the counter %d read) changed its role across ReadPopulation", n.Id, nn))
+					}
+				}
+			}
+		}
+	}
+	check()
+	ex := &genetics.SequentialPopulationEpochExecutor{}
+	ctx := opts.NeatContext()
+	for ep := 0; ep < epochs; ep++ {
+		for i, o := range pop2.Organisms {
+			o.Fitness = fitnessFor(0, ep+gen0, i, o.Genotype)
+		}
+		if err := ex.NextEpoch(ctx, ep+gen0, pop2); err != nil {
+			return reissued, fmt.Errorf("epoch %d after ReadPopulation failed: %v", ep, err)
+		}
+		if po != nil {
+			po.afterEpoch(pop2, opts, map[*genetics.Organism]bool{}, nil, nil, false)
+		}
+		check()
+	}
+	return reissued, nil
+}
+
+// c03ReadPopulation is the entry point called by runEpochProp: one round-trip history and one hand-made file
 func c03ReadPopulation(r *Run) {
+	c03ReadRoundTrip(r)
+	c03ReadCounters(r)
+}
+
+// c03ReadRoundTrip: a population that was evolved, written, read back with ReadPopulation and evolved
+// further must keep issuing innovation numbers and node ids larger than any it holds (C03: the counters
+// are initialised past the genomes read), with one link per number over the whole continued history and
+// ACROSS the round trip (C03_history_across_read, C03_whole_history_across_read).
+func c03ReadRoundTrip(r *Run) {
 	quiet()
 	in0 := newEpochInput(r, "C03", 30, 5, true)
 	in0.Opts.MutateAddLinkProb = 0.6 // heterogeneous genomes: new links without new nodes
 	in := map[string]interface{}{"family": "read-population", "seed": in0.Seed, "opts": in0.Opts, "start": in0.Start, "epochs_before": in0.Epochs}
 	bad := func(key, what string) { r.Fail(Failure{Key: key, What: what, Input: in}) }
+	start, err := genomeFromText(in0.Start)
+	if err != nil {
+		return
+	}
+	rand.Seed(in0.Seed)
+	pop, err := genetics.NewPopulation(start, in0.Opts)
+	if err != nil {
+		return
+	}
+	preAll := c03rNewReg()
+	preAll.add(pop)
+	ex := &genetics.SequentialPopulationEpochExecutor{}
+	ctx := in0.Opts.NeatContext()
+	for ep := 0; ep < in0.Epochs; ep++ {
+		for i, o := range pop.Organisms {
+			o.Fitness = fitnessFor(0, ep, i, o.Genotype)
+		}
+		if err := ex.NextEpoch(ctx, ep, pop); err != nil {
+			return
+		}
+		preAll.add(pop)
+	}
+	pre := c03rNewReg()
+	pre.add(pop)
+	_, niBefore, _ := genetics.VPopulationCounters(pop)
+	var buf bytes.Buffer
+	if err := pop.Write(&buf); err != nil {
+		bad("population-write-error", err.Error())
+		return
+	}
+	pop2, err := genetics.ReadPopulation(&buf, in0.Opts)
+	if err != nil {
+		bad("population-read-error", "ReadPopulation failed on what Population.Write produced: "+err.Error())
+		return
+	}
+	if unsorted, _ := c03rCounters(pop2, bad); unsorted {
+		bad("written-genome-out-of-order", "Population.Write / ReadPopulation gave a genome whose genes or nodes are not ascending")
+	}
+	_, niAfter, _ := genetics.VPopulationCounters(pop2)
+	r.Hist("innov_counter_after_read_vs_before_write", map[bool]string{true: "lower (numbers of extinct organisms forgotten)", false: "not lower"}[niAfter < niBefore])
+	po := newPopOracle("C03", bad)
+	po.afterEpoch(pop2, in0.Opts, map[*genetics.Organism]bool{}, nil, nil, true)
+	reissued, err := c03rEvolve(pop2, in0.Opts, 6, in0.Epochs, pre, preAll, po, bad)
+	if err != nil {
+		bad("epoch-error-after-read", err.Error())
+		return
+	}
+	r.Hist("number_of_extinct_organism_reissued_after_read", fmt.Sprint(reissued))
+	r.Count(fmt.Sprint("readpop", in0.Seed), true)
+	r.Hist("read_population_histories", "ok")
+}
+
+// ---------- hand-made population files ----------
+
+// c03rBlocks cuts the output of Population.Write into genome blocks (genomestart .. genomeend)
+func c03rBlocks(text string) [][]string {
+	var blocks [][]string
+	var cur []string
+	for _, l := range strings.Split(text, "\n") {
+		if l == "" {
+			continue
+		}
+		cur = append(cur, l)
+		if strings.HasPrefix(l, "genomeend ") {
+			blocks = append(blocks, cur)
+			cur = nil
+		}
+	}
+	return blocks
+}
+
+// c03rShuffleTagged permutes the lines of one tag (they are contiguous in a block) among themselves
+func c03rShuffleTagged(rng *rand.Rand, block []string, tag string) []string {
+	out := append([]string(nil), block...)
+	var idx []int
+	for i, l := range out {
+		if strings.HasPrefix(l, tag+" ") {
+			idx = append(idx, i)
+		}
+	}
+	perm := rng.Perm(len(idx))
+	for k, i := range idx {
+		out[i] = block[idx[perm[k]]]
+	}
+	return out
+}
+
+// c03ReadCounters: population files as a person would assemble them from evolved genomes: a subset of the
+// genomes of an evolved population in any order, comment lines between and inside the genomes, optionally an
+// unterminated genome at the end (dropped by the reader), and - class "unsorted" - gene or hidden-node lines
+// of a genome in another order.  Oracle: C03_read_counters_dominate (exact characterisation of both counters
+// for every file; domination of everything held when every genome is in order), then the C03 clauses over
+// epochs continued from the file for the ordered class.  For the unsorted class the shortfall of the counters
+// and the re-use of a held number are counted, not failed (recorded observation: the reader looks at the last
+// gene and the last node only and accepts genomes in any order).
+func c03ReadCounters(r *Run) {
+	quiet()
+	in0 := newEpochInput(r, "C03", 16, 5, true)
+	in0.Opts.MutateAddLinkProb, in0.Opts.MutateAddNodeProb = 0.5, 0.4
 	start, err := genomeFromText(in0.Start)
 	if err != nil {
 		return
@@ -38,27 +301,88 @@ func c03ReadPopulation(r *Run) {
 	}
 	var buf bytes.Buffer
 	if err := pop.Write(&buf); err != nil {
-		bad("population-write-error", err.Error())
 		return
 	}
-	pop2, err := genetics.ReadPopulation(&buf, in0.Opts)
+	blocks := c03rBlocks(buf.String())
+	if len(blocks) < 2 {
+		return
+	}
+	rng := r.Rng
+	class := []string{"ordered", "ordered", "unsorted-genes", "unsorted-nodes"}[rng.Intn(4)]
+	keep := 2 + rng.Intn(len(blocks)-1)
+	perm := rng.Perm(len(blocks))[:keep]
+	var sb strings.Builder
+	if rng.Intn(2) == 0 {
+		sb.WriteString("/* population assembled by hand */\n")
+	}
+	for k, bi := range perm {
+		b := blocks[bi]
+		switch {
+		case class == "unsorted-genes" && (k == 0 || rng.Intn(2) == 0):
+			b = c03rShuffleTagged(rng, b, "gene")
+		case class == "unsorted-nodes" && (k == 0 || rng.Intn(2) == 0):
+			b = c03rShuffleTagged(rng, b, "node")
+		}
+		if rng.Intn(3) == 0 {
+			sb.WriteString(fmt.Sprintf("/* Organism #%d */\n", k))
+		}
+		for j, l := range b {
+			sb.WriteString(l + "\n")
+			if j == 0 && rng.Intn(4) == 0 {
+				sb.WriteString("/* a comment inside the genome */\n")
+			}
+		}
+	}
+	if rng.Intn(4) == 0 { // an unterminated genome: dropped silently
+		b := blocks[perm[0]]
+		for _, l := range b[:len(b)-1] {
+			sb.WriteString(l + "\n")
+		}
+	}
+	text := sb.String()
+	opts := *in0.Opts
+	opts.PopSize = keep
+	opts.MutateAddNodeProb, opts.MutateAddLinkProb = 0.5, 0.5
+	in := map[string]interface{}{"family": "read-counters", "class": class, "file": text, "opts": &opts, "seed": in0.Seed}
+	bad := func(key, what string) { r.Fail(Failure{Key: key, What: what, Input: in}) }
+	pop2, err := genetics.ReadPopulation(strings.NewReader(text), &opts)
 	if err != nil {
-		bad("population-read-error", "ReadPopulation failed on what Population.Write produced: "+err.Error())
+		bad("hand-made-population-read-error", "ReadPopulation failed on a permuted / commented population file: "+err.Error())
 		return
 	}
-	po := newPopOracle("C03", bad)
-	po.afterEpoch(pop2, in0.Opts, map[*genetics.Organism]bool{}, nil, nil, true)
-	ex2 := &genetics.SequentialPopulationEpochExecutor{}
-	for ep := 0; ep < 6; ep++ {
-		for i, o := range pop2.Organisms {
-			o.Fitness = fitnessFor(0, ep+in0.Epochs, i, o.Genotype)
-		}
-		if err := ex2.NextEpoch(ctx, ep+in0.Epochs, pop2); err != nil {
-			bad("epoch-error-after-read", fmt.Sprintf("epoch %d after ReadPopulation failed: %v", ep, err))
-			return
-		}
-		po.afterEpoch(pop2, in0.Opts, map[*genetics.Organism]bool{}, nil, nil, false)
+	if len(pop2.Organisms) != keep {
+		bad("hand-made-population-size", fmt.Sprintf("ReadPopulation returned %d organisms for %d terminated genomes", len(pop2.Organisms), keep))
+		return
 	}
-	r.Count(fmt.Sprint("readpop", in0.Seed), true)
-	r.Hist("read_population_histories", "ok")
+	unsorted, short := c03rCounters(pop2, bad)
+	r.Hist("read_counters_class", class)
+	if !unsorted {
+		pre := c03rNewReg()
+		pre.add(pop2)
+		po := newPopOracle("C03", bad)
+		po.afterEpoch(pop2, &opts, map[*genetics.Organism]bool{}, nil, nil, true)
+		rand.Seed(in0.Seed + 1)
+		if _, err := c03rEvolve(pop2, &opts, 3, in0.Epochs, pre, nil, po, bad); err != nil {
+			r.Hist("read_counters_epoch_errors", "error")
+		}
+		r.Count(fmt.Sprint("readcounters", in0.Seed, class, keep), true)
+		return
+	}
+	// out-of-order genomes: count, do not fail
+	r.Hist("unsorted_file_counter_below_held", fmt.Sprint(short))
+	reused := false
+	quietBad := func(key, what string) {
+		if strings.HasPrefix(key, "innovation-number-reused") || strings.HasPrefix(key, "node-id-role-changed") {
+			reused = true
+		}
+	}
+	pre := c03rNewReg()
+	pre.add(pop2)
+	rand.Seed(in0.Seed + 1)
+	func() {
+		defer func() { _ = recover() }()
+		_, _ = c03rEvolve(pop2, &opts, 3, in0.Epochs, pre, nil, nil, quietBad)
+	}()
+	r.Hist("unsorted_file_held_number_reused_after_read", fmt.Sprint(reused))
+	r.Count(fmt.Sprint("readcounters", in0.Seed, class, keep), short)
 }
